@@ -151,6 +151,7 @@ func init() {
 	})
 	reg("(*sync.Mutex).Unlock", func(fr *frame, a []value) value {
 		m := fr.i.run.sched.mutex(argPtr(a[0]))
+		fr.i.run.sched.visible(fr, m, "Mutex.Unlock")
 		if !m.locked {
 			panic(targetPanic{v: iface{t: fr.i.runtimeErrorString, v: "sync: unlock of unlocked mutex"}, runtime: true})
 		}
@@ -166,6 +167,7 @@ func init() {
 	})
 	reg("(*sync.RWMutex).Unlock", func(fr *frame, a []value) value {
 		m := fr.i.run.sched.mutex(argPtr(a[0]))
+		fr.i.run.sched.visible(fr, m, "RWMutex.Unlock")
 		if !m.locked {
 			panic(targetPanic{v: iface{t: fr.i.runtimeErrorString, v: "sync: Unlock of unlocked RWMutex"}, runtime: true})
 		}
@@ -181,6 +183,7 @@ func init() {
 	})
 	reg("(*sync.RWMutex).RUnlock", func(fr *frame, a []value) value {
 		m := fr.i.run.sched.mutex(argPtr(a[0]))
+		fr.i.run.sched.visible(fr, m, "RWMutex.RUnlock")
 		if m.readers <= 0 {
 			panic(targetPanic{v: iface{t: fr.i.runtimeErrorString, v: "sync: RUnlock of unlocked RWMutex"}, runtime: true})
 		}
@@ -190,6 +193,7 @@ func init() {
 	reg("(*sync.WaitGroup).Add", func(fr *frame, a []value) value {
 		r := fr.i.run
 		wg := r.sched.waitgroup(argPtr(a[0]))
+		r.sched.visible(fr, wg, "WaitGroup.Add")
 		wg.n += r.concreteInt(a[1])
 		if wg.n < 0 {
 			panic(targetPanic{v: iface{t: types.Typ[types.String], v: "sync: negative WaitGroup counter"}})
@@ -198,6 +202,7 @@ func init() {
 	})
 	reg("(*sync.WaitGroup).Done", func(fr *frame, a []value) value {
 		wg := fr.i.run.sched.waitgroup(argPtr(a[0]))
+		fr.i.run.sched.visible(fr, wg, "WaitGroup.Done")
 		wg.n--
 		if wg.n < 0 {
 			panic(targetPanic{v: iface{t: types.Typ[types.String], v: "sync: negative WaitGroup counter"}})
@@ -618,6 +623,14 @@ func concreteStr(v value) string {
 func (s *Sched) atomicPoint(fr *frame, addr value) {
 	if len(s.gs) > 1 {
 		s.yield(fr.g, &pendingOp{kind: opYield, obj: addr, desc: "atomic"})
+	}
+}
+
+// visible marks a never-blocking synchronisation operation as a scheduling point of its own, so
+// that every transition consists of exactly one visible operation (needed for sleep sets).
+func (s *Sched) visible(fr *frame, obj interface{}, desc string) {
+	if len(s.gs) > 1 {
+		s.yield(fr.g, &pendingOp{kind: opYield, obj: obj, desc: desc})
 	}
 }
 
